@@ -88,6 +88,7 @@ class Builder:
                 lab = mm.group(1)
                 self.linemap[bstart + off] = (fname, lab, getattr(self, '_inv_labels', {}).get(lab, list(props)))
                 self.obligations.append((lab, getattr(self, '_inv_labels', {}).get(lab, list(props))))
+        self._map_block_lines(first, fname)
         self.fn_ranges.append((first, self.lineno() - 1, fname, list(props), fname + '.safety'))
         self.obligations.append((fname + '.safety', list(props)))
     def assumed_fn(self, f, name, within=None, requires=(), ensures=(), why=''):
@@ -123,8 +124,13 @@ class Builder:
         return re.sub(r'^([ \t]*)for (.+?) in (.+?) \{$', rep, body, flags=re.M)
     def _insert_blocks(self, body, blocks, where):
         # R2b: (anchor text, 'before'|'after'|'after_block'|'fn_end', ghost text)
-        for anchor, pos, text in blocks:
-            if pos in ('loop_start', 'loop_end'):
+        for blk in blocks:
+            anchor, pos, text = blk[0], blk[1], blk[2]
+            if len(blk) > 3:
+                lab, props = blk[3]
+                text = '\n'.join(ln + ' /*@%s@*/' % lab for ln in text.split('\n'))
+                self._block_labels = getattr(self, '_block_labels', {}); self._block_labels[lab] = props
+            if pos in ('loop_start', 'loop_end', 'loop_before'):
                 # anchor is the 1-based ordinal of the `for` loop (in source order, after R2 naming: `in itN:`)
                 i = L.find_code(body, ' in it%d: ' % anchor)
                 if i < 0: raise X.LostAnchor('%s: loop %s' % (where, anchor))
@@ -136,13 +142,25 @@ class Builder:
                     if body[ls:bo].strip() == '': break
                     j = L.match_close(body, bo) + 1
                 bc = L.match_close(body, bo)
-                if pos == 'loop_start':
+                if pos == 'loop_before':
+                    ls = body.rfind('\n', 0, i) + 1
+                    body = body[:ls] + text + '\n' + body[ls:]
+                elif pos == 'loop_start':
                     le = body.find('\n', bo)
                     body = body[:le + 1] + text + '\n' + body[le + 1:]
                 else:
                     ls = body.rfind('\n', 0, bc) + 1
                     body = body[:ls] + text + '\n' + body[ls:]
                 self.log.add('R2b', where, 'loop %s' % anchor, 'ghost block ' + pos); continue
+            if pos == 'before_tail':
+                # before the last top-level statement / tail expression of the body (body may or may not carry its enclosing braces)
+                inner0 = body.find('{') + 1 if body.lstrip().startswith('{') else 0
+                inner1 = body.rstrip().rfind('}') if inner0 else len(body)
+                st = L.split_stmts(body[inner0:inner1])
+                a = inner0 + st[-1][0]
+                ls = body.rfind('\n', 0, a) + 1
+                body = body[:ls] + text + '\n' + body[ls:]
+                self.log.add('R2b', where, 'before tail expression', 'ghost block'); continue
             if pos == 'fn_end':
                 e = body.rstrip().rfind('}')
                 ls = body.rfind('\n', 0, e) + 1
@@ -163,22 +181,44 @@ class Builder:
                 body = body[:le + 1] + text + '\n' + body[le + 1:]
             self.log.add('R2b', where, anchor, 'ghost block ' + pos)
         return body
-    def slice_fn(self, fname, sig, body, where, requires=(), clauses=(), props=(), extra_rules=(), prologue='', epilogue='', decreases=None):
+    def slice_fn(self, fname, sig, body, where, requires=(), clauses=(), props=(), extra_rules=(), prologue='', epilogue='', decreases=None, loops=None, blocks=None, pre=None):
         """R7: a closure body / statement range lifted into a generated fn `sig` (written by the unit), body byte-for-byte + dialect rules."""
         from . import dialect as D
         body = D.strip_attrs_and_docs(body, self.log, where)
         body = D.apply_rules(body, self.log, where, extra_rules)
+        if pre: body = pre(body, self.log, where)
         self.log.add('R7', where, 'slice', sig)
+        if loops: body = self._annotate_loops(body, loops, where)
+        if blocks: body = self._insert_blocks(body, blocks, where)
         first = self.lineno()
         self.emit(sig)
         self._emit_contract(fname, requires, clauses, decreases, props)
         self.emit('{')
         if prologue: self.emit(prologue)
+        bstart = self.lineno()
         self.emit(body)
+        if loops:
+            for off, ln in enumerate(self.lines[bstart - 1:]):
+                mm = re.search(r'/\*#([^#]+)#\*/', ln)
+                if mm:
+                    lab = mm.group(1)
+                    self.linemap[bstart + off] = (fname, lab, self._inv_labels.get(lab, list(props)))
+                    self.obligations.append((lab, self._inv_labels.get(lab, list(props))))
         if epilogue: self.emit(epilogue)
         self.emit('}')
+        self._map_block_lines(first, fname)
         self.fn_ranges.append((first, self.lineno() - 1, fname, list(props), fname + '.safety'))
         self.obligations.append((fname + '.safety', list(props)))
+    def _map_block_lines(self, first, fname):
+        bl = getattr(self, '_block_labels', {})
+        if not bl: return
+        for ln in range(first, self.lineno()):
+            mm = re.search(r'/\*@([^@]+)@\*/', self.lines[ln - 1])
+            if mm and mm.group(1) in bl:
+                self.linemap[ln] = (fname, mm.group(1), bl[mm.group(1)])
+        for lab, props in bl.items():
+            if (lab, props) not in self.obligations: self.obligations.append((lab, props))
+        self._block_labels = {}
     def lemma(self, label, props, text):
         """spec/proof text written by the unit (not extracted): one proof obligation `label`; any verifier error inside maps to it."""
         first = self.lineno()
